@@ -19,6 +19,13 @@ import DawgieVerif.Proofs.Fsm
 namespace DawgieVerif.C10
 open DawgieVerif.Fsm DawgieVerif.Generated.Fsm
 
+/-- The generated table is the documented machine of the property text: every edge of
+    `pl/state.dot` is one of the documented transitions and every documented transition has an edge. -/
+theorem table_is_documented :
+    (∀ e ∈ edges, (e.source, e.dest) ∈ documented) ∧
+    (∀ p ∈ documented, ∃ e ∈ edges, (e.source, e.dest) = p) := by
+  decide
+
 /-- Every state change is an edge of the GENERATED table: the moves made by one event (from ANY
     state, reachable or not) form a path of table edges from the old state to the new one; no
     move means the state is unchanged. -/
